@@ -28,7 +28,7 @@ m = {
         "guard": "verif",
         "enable": "go build -tags verif (the harness module /verif/harness replaces github.com/SKAARHOJ/rawpanel-lib by /repo)",
         "baseline_off_cmd": "for m in . ./rawpanel-lib-c; do (cd /repo/$m && GOFLAGS=-mod=mod go test -json -vet=off -count=1 -timeout 25m ./...); done",
-        "source_commits": [],
+        "source_commits": ["adc0469"],
         "add_only": True,
     },
     "engines": [
